@@ -3,7 +3,7 @@ drives the case split over inclusion graphs; conditions appended by props/C17.py
 from wikitextprocessor import Wtp
 from wikitextprocessor.core import Page
 
-NAMES = ["A b", "Éc", "Dd", "Ee"]  # a space, a non-ASCII initial
+NAMES = ["A B", "Éc", "Dd", "Ee"]  # a space followed by a second capital (later letters are case-sensitive), a non-ASCII initial
 RNAME = "Rr"
 ctx = Wtp(quiet=True, quiet_output=True)
 
